@@ -103,7 +103,7 @@ def run_case(spec, ctx):
             first = first or [psi.tolist(), cls]
             for name, arg in (("Exp_SO3", psi), ("Log_SO3", A), ("Spurrier", A), ("T_SO3", psi), ("T_SO3_inv", psi), ("Exp_SE3", h), ("Log_SE3", H)):
                 thunks.append((name, {"function": name, "argument": arg}, (lambda f=getattr(R, name), a=arg: f(a.copy()))))
-        purity_check(ctx, rng, thunks, mon="purity")
+        purity_check(ctx, rng, thunks, mon="purity", scribble=True)
         ctx.cls("kind:purity")
         ctx.sig([kind, first], nontrivial=True)
         ctx.sample({"kind": kind, "calls": len(thunks)})
